@@ -591,3 +591,47 @@ func C13TwoObjects() {
 	}
 	sym.Reach("two-objects-done")
 }
+
+// C13RegisterRacingDisconnect: subscribers B and C are registered; A registers while B's connection
+// goes away (its registration is cleaned up): afterwards an emission reaches C exactly once and A
+// exactly once (if its registration was acknowledged), and nothing is sent for B.
+func C13RegisterRacingDisconnect() {
+	h := newSignalHandler()
+	h.Activate(Activation{ServiceID: 9, ObjectID: 1})
+	streams := make([]*zzStream, 3)
+	chans := make([]Channel, 3)
+	for i := range chans {
+		streams[i] = newZZStream()
+		chans[i] = NewChannel(net.NewEndPoint(streams[i]), DefaultCap())
+	}
+	const sig = 0x60
+	for i := 1; i < 3; i++ { // B = 1, C = 2
+		msg := zzFrame(net.Call, 9, 1, 0, uint32(10+i), zzRegisterPayload(1, sig, uint64(70+i)))
+		sym.Assert(h.RegisterEvent(&msg, chans[i]) == nil, "register-ok")
+	}
+	done := make(chan bool, 2)
+	go func() {
+		msg := zzFrame(net.Call, 9, 1, 0, 10, zzRegisterPayload(1, sig, 70))
+		h.RegisterEvent(&msg, chans[0])
+		done <- true
+	}()
+	go func() {
+		chans[1].EndPoint().Close() // B's connection goes away: its close callback unregisters it
+		done <- true
+	}()
+	<-done
+	<-done
+	sym.Quiesce()
+	marks := []int{len(streams[0].sentMessages()), 0, len(streams[2].sentMessages())}
+	data := sym.Bytes("emit-data", 1)
+	h.UpdateSignal(sig, data)
+	evC := streams[2].sentMessages()[marks[2]:]
+	sym.Assert(len(evC) == 1, "register-race/bystander-event-count")
+	evA := streams[0].sentMessages()[marks[0]:]
+	sym.Assert(len(evA) <= 1, "register-race/newcomer-event-duplicated")
+	h.signalsMutex.RLock()
+	n := len(h.signals)
+	h.signalsMutex.RUnlock()
+	sym.Assert(n <= 2, "register-race/departed-subscriber-still-registered")
+	sym.Reach("register-race-done")
+}
